@@ -73,7 +73,7 @@ type c13Enc struct {
 	Seed  uint64 `json:"seed"`            // per-element choices (deterministic splitmix)
 	JS    int    `json:"js"`              // 0 compact canonical, 1 whitespace, 2 shuffled keys + \u escapes + exponent floats
 	MP    int    `json:"mp"`              // 0 minimal headers, 1 widest headers, 2 mixed + unknown keys + float32 + shuffled keys
-	PB    int    `json:"pb"`              // 0 canonical proto3, 1 unpacked repeated scalars, 2 explicit zeros + shuffled fields + unknown fields, 3 mixed
+	PB    int    `json:"pb"`              // 0 canonical proto3, 1 unpacked repeated scalars, 2 explicit zeros + shuffled fields + unknown fields, 3 mixed, 4 repeated scalars split into several records (packed chunks and singles)
 	Split []int  `json:"split,omitempty"` // TL / MessagePack: the metrics are sent as several concatenated batches (sizes)
 	Order []int  `json:"order,omitempty"` // order in which the formats are decoded with the shared batch object
 }
@@ -917,33 +917,58 @@ func c13EncPBMetric(m *c13Metric, st int, r *c13Rng) []byte {
 	if m.HasT && (m.T != 0 || explicitZero) {
 		parts = append(parts, c13PBVarint(c13PBTag(nil, 4, 0), uint64(m.T)))
 	}
+	// A repeated scalar field may arrive as any sequence of records of its field number, packed chunks and non-packed
+	// single elements mixed; the parser must concatenate them in order (protobuf encoding guide, "packed repeated fields").
+	split := st == 4 || (mixed && r.n(2) == 0)
+	chunks := func(n int) (sizes []int) { // st 4: at least two records whenever there are >= 2 elements
+		if !split || n < 2 {
+			return []int{n}
+		}
+		for left := n; left > 0; {
+			k := 1 + r.n(left)
+			if len(sizes) == 0 && k == n {
+				k = 1 + r.n(n-1)
+			}
+			sizes = append(sizes, k)
+			left -= k
+		}
+		return sizes
+	}
 	if m.HasV && len(m.V) > 0 {
 		var p []byte
-		if unpackedV {
-			for _, v := range m.V {
-				p = c13PBFixed64(p, 5, math.Float64bits(float64(v)))
+		pos := 0
+		for _, k := range chunks(len(m.V)) {
+			if (unpackedV && !split) || (split && k == 1 && r.n(2) == 0) {
+				for _, v := range m.V[pos : pos+k] {
+					p = c13PBFixed64(p, 5, math.Float64bits(float64(v)))
+				}
+			} else {
+				var body []byte
+				for _, v := range m.V[pos : pos+k] {
+					body = binary.LittleEndian.AppendUint64(body, math.Float64bits(float64(v)))
+				}
+				p = c13PBBytes(p, 5, body)
 			}
-		} else {
-			var body []byte
-			for _, v := range m.V {
-				body = binary.LittleEndian.AppendUint64(body, math.Float64bits(float64(v)))
-			}
-			p = c13PBBytes(nil, 5, body)
+			pos += k
 		}
 		parts = append(parts, p)
 	}
 	if m.HasU && len(m.U) > 0 {
 		var p []byte
-		if unpackedU {
-			for _, v := range m.U {
-				p = c13PBVarint(c13PBTag(p, 6, 0), uint64(v))
+		pos := 0
+		for _, k := range chunks(len(m.U)) {
+			if (unpackedU && !split) || (split && k == 1 && r.n(2) == 0) {
+				for _, v := range m.U[pos : pos+k] {
+					p = c13PBVarint(c13PBTag(p, 6, 0), uint64(v))
+				}
+			} else {
+				var body []byte
+				for _, v := range m.U[pos : pos+k] {
+					body = c13PBVarint(body, uint64(v))
+				}
+				p = c13PBBytes(p, 6, body)
 			}
-		} else {
-			var body []byte
-			for _, v := range m.U {
-				body = c13PBVarint(body, uint64(v))
-			}
-			p = c13PBBytes(nil, 6, body)
+			pos += k
 		}
 		parts = append(parts, p)
 	}
@@ -1125,6 +1150,13 @@ func c13PropXformat(t vpT, b c13Batch) (nontrivial bool, classes []string) {
 			t.Fatalf("%s: inconsistent decode (%s)\npacket %x", what, rec.maskBad, pkt)
 		}
 		c13Expect(t, what, pkt, rec.metrics, want)
+		if f == c13FmtProtobuf { // once more with a decoder that has never seen a packet: reused slices hide allocation mistakes
+			recCold, errCold := (&c13Dec{}).run(pkt)
+			if errCold != nil || len(recCold.perr) != 0 {
+				t.Fatalf("%s (fresh decoder): valid packet rejected: %v\npacket %x", what, errCold, pkt)
+			}
+			c13Expect(t, what+" (fresh decoder)", pkt, recCold.metrics, want)
+		}
 		if len(pkt) > 0 && c13Detect(pkt) != c13FmtNames[f] {
 			t.Fatalf("%s: harness encoder produced a packet whose documented prefix says %s: %x", what, c13Detect(pkt), pkt)
 		}
@@ -1135,6 +1167,14 @@ func c13PropXformat(t vpT, b c13Batch) (nontrivial bool, classes []string) {
 	sort.Strings(classes)
 	if len(b.Enc.Split) > 0 {
 		classes = append(classes, "multi-batch-packet")
+	}
+	if b.Enc.PB == 4 {
+		for i := range b.Metrics {
+			if (b.Metrics[i].HasV && len(b.Metrics[i].V) >= 2) || (b.Metrics[i].HasU && len(b.Metrics[i].U) >= 2) {
+				classes = append(classes, "pb-repeated-split")
+				break
+			}
+		}
 	}
 	if b.Enc.PB == 1 || b.Enc.PB == 3 {
 		classes = append(classes, "pb-unpacked")
@@ -1261,7 +1301,7 @@ func c13GenBatch(maxMetrics int, allowNonFinite bool) *rapid.Generator[c13Batch]
 		b.Enc.Seed = rapid.Uint64().Draw(t, "seed")
 		b.Enc.JS = rapid.IntRange(0, 2).Draw(t, "js")
 		b.Enc.MP = rapid.IntRange(0, 2).Draw(t, "mp")
-		b.Enc.PB = rapid.IntRange(0, 3).Draw(t, "pb")
+		b.Enc.PB = rapid.SampledFrom([]int{0, 4, 1, 2, 3, 4}).Draw(t, "pb")
 		if len(b.Metrics) >= 2 && rapid.IntRange(0, 3).Draw(t, "dosplit") == 0 {
 			left := len(b.Metrics)
 			for left > 0 {
@@ -1430,7 +1470,7 @@ func c13CheckPacket(t vpT, dec *c13Dec, pkt []byte, reencode bool) (classes []st
 			}
 		}
 	}
-	rb := c13Batch{Metrics: rec.models, Enc: c13Enc{Seed: vpHash(pkt), JS: int(vpHash(pkt) % 3), MP: int(vpHash(pkt) / 3 % 3), PB: int(vpHash(pkt) / 9 % 4)}}
+	rb := c13Batch{Metrics: rec.models, Enc: c13Enc{Seed: vpHash(pkt), JS: int(vpHash(pkt) % 3), MP: int(vpHash(pkt) / 3 % 3), PB: int(vpHash(pkt) / 9 % 5)}}
 	for f := 0; f < 4; f++ {
 		if f != c13FmtTL && !valid { // the other three formats define strings as UTF-8
 			continue
@@ -2317,7 +2357,7 @@ func c13FuzzOne(t *testing.T, data []byte) {
 func c13FuzzSeeds(f *testing.F, format int) {
 	r := &c13Rng{s: 13}
 	mk := func(i int) c13Batch {
-		b := c13Batch{Enc: c13Enc{Seed: r.next(), JS: i % 3, MP: i % 3, PB: i % 4}}
+		b := c13Batch{Enc: c13Enc{Seed: r.next(), JS: i % 3, MP: i % 3, PB: i % 5}}
 		for j := 0; j <= i%3; j++ {
 			m := c13Metric{Name: "metric" + strconv.Itoa(j), Tags: []c13Tag{{"env", "production"}, {"1", "v"}}}
 			if (i+j)%2 == 0 {
@@ -2413,7 +2453,7 @@ func TestVerifC13WriteCorpus(t *testing.T) {
 	r := &c13Rng{s: 2024}
 	names := []string{"FuzzVerifC13TL", "FuzzVerifC13JSON", "FuzzVerifC13Msgpack", "FuzzVerifC13Protobuf"}
 	for i := 0; i < 12; i++ {
-		b := c13Batch{Enc: c13Enc{Seed: r.next(), JS: i % 3, MP: i % 3, PB: i % 4}}
+		b := c13Batch{Enc: c13Enc{Seed: r.next(), JS: i % 3, MP: i % 3, PB: i % 5}}
 		for j := 0; j <= i%3; j++ {
 			m := c13Metric{Name: []string{"m", "api_requests", "\u043c\u0435\u0442\u0440\u0438\u043a\u0430"}[(i+j)%3]}
 			for k := 0; k < (i+j)%4; k++ {
